@@ -37,6 +37,8 @@ def writerProcess (writerNil eventNil : Bool) (cfgFormat : Nat) (t : Table) (w :
     match format t (effFormat cfgFormat) with
     | none => .errNotMarshaled
     | some v =>
+      -- bytes.Reader.WriteTo does not call Write at all for an empty value
+      if v.isEmpty then .wrote [] else
       match w with
       | .ok => .wrote v
       | .fail => .errWrite
